@@ -23,12 +23,14 @@ RULE = ("(a) exhaustive: file absent, empty, and every file of up to 3 (quick) /
 
 
 CLOSED = [[], [], [], [], [1], [2], [1, 2], [0, 1, 2], [0]]
+FSTATES = [None, None, None, "symlink", "oldmtime"]
 
 
-def evaluate_content(ctl, content, closed=()):
+def evaluate_content(ctl, content, closed=(), fstate=None):
     P = ctl.P
     old = ctl.subst(content)
-    ctl.put(old)
+    # the file may be a symbolic link with a relative target (commands run from another directory) or last changed days ago
+    ctl.put(old, symlink=(fstate == "symlink"), old_mtime=(fstate == "oldmtime"))
     old_eff = old or b""
     # the command may be started without some of its standard descriptors (`snoopyctl ... >&-`): the file must come out the same
     rc, out, err = ctl.run(ACTION, closed=closed)
@@ -61,7 +63,7 @@ def evaluate_content(ctl, content, closed=()):
 def evaluate(env, c):
     if not hasattr(env, "ctl"):
         env.ctl = preload.Ctl(next(iter(env.builds.values())), os.path.join(env.run.dir, "ctl-%d" % os.getpid()))
-    evaluate_content(env.ctl, c["content"], tuple(c.get("closed", ())))
+    evaluate_content(env.ctl, c["content"], tuple(c.get("closed", ())), c.get("fstate"))
 
 
 def classify(c):
@@ -82,6 +84,8 @@ def classify(c):
             cls.append(n)
     if c.get("closed"):
         cls.append("started-without-fd:" + ",".join(map(str, c["closed"])))
+    if c.get("fstate"):
+        cls.append("file:" + c["fstate"])
     return ((ct, tuple(c.get("closed", ()))) if nontriv else None), cls
 
 
@@ -97,11 +101,11 @@ def exhaustive_worker(args):
     for n, content in enumerate(preload.exhaustive_contents(maxlines)):
         if n % nshards != idx:
             continue
-        c = {"content": content, "closed": CLOSED[n % len(CLOSED)]}
+        c = {"content": content, "closed": CLOSED[n % len(CLOSED)], "fstate": FSTATES[(n // 3) % len(FSTATES)]}
         key, cls = classify(c)
         local.count(key, ["exhaustive"] + cls, sample=c)
         try:
-            _EX["eval"](ctl, content, tuple(c["closed"]))
+            _EX["eval"](ctl, content, tuple(c["closed"]), c["fstate"])
         except Failure as f:
             if local.is_known(f.key):
                 local.known_hit(f.key, f.what)
@@ -112,7 +116,7 @@ def exhaustive_worker(args):
 
 def strategy():
     from hypothesis import strategies as st
-    return st.builds(lambda b, cl: {"content": b, "closed": cl}, preload.st_content(), st.sampled_from(CLOSED))
+    return st.builds(lambda b, cl, fs: {"content": b, "closed": cl, "fstate": fs}, preload.st_content(), st.sampled_from(CLOSED), st.sampled_from(FSTATES))
 
 
 def main(pid=PID, rule=RULE, eval_content=None):
